@@ -272,7 +272,19 @@ public:
   void setFather(const std::shared_ptr<N>  nodeObject, const std::shared_ptr<N> fatherNodeObject, const std::shared_ptr<E> edgeObject = 0)
   {
     if (edgeObject)
-      this->getGraph()->setFather(this->getNodeGraphid(nodeObject), this->getNodeGraphid(fatherNodeObject), this->getEdgeGraphid(edgeObject));
+    {
+      NodeGraphid node = this->getNodeGraphid(nodeObject);
+      NodeGraphid father = this->getNodeGraphid(fatherNodeObject);
+      // checked before anything is unlinked: the edge object may be the one of the branch
+      // to the current father (it goes with that branch and comes back on the new one),
+      // but not the one of another branch
+      if (this->hasEdge(edgeObject) &&
+          !(this->getGraph()->hasFather(node) && this->getGraph()->getEdgeToFather(node) == this->getEdgeGraphid(edgeObject)))
+        throw Exception("AssociationTreeGraphImplObserver::setFather: The given edge is already associated to another relation in the subjectGraph.");
+      this->getGraph()->setFather(node, father);
+      // the object is attached to the new branch
+      this->associateEdge(edgeObject, this->getGraph()->getEdge(father, node));
+    }
     else
       this->getGraph()->setFather(this->getNodeGraphid(nodeObject), this->getNodeGraphid(fatherNodeObject));
   }
@@ -288,7 +300,9 @@ public:
   void addSon(const std::shared_ptr<N>  nodeObject, const std::shared_ptr<N> sonNodeObject, const std::shared_ptr<E> edgeObject = 0)
   {
     if (edgeObject)
-      this->getGraph()->addSon(this->getNodeGraphid(nodeObject), this->getNodeGraphid(sonNodeObject), this->getEdgeGraphid(edgeObject));
+      // creates the branch and attaches the object to it (an object attached to
+      // another relation is refused before anything is linked)
+      this->link(nodeObject, sonNodeObject, edgeObject);
     else
       this->getGraph()->addSon(this->getNodeGraphid(nodeObject), this->getNodeGraphid(sonNodeObject));
   }
